@@ -62,6 +62,55 @@ def run_case(case):
             'exc': type(obj).__name__ if kind == 'exc' else None}
 
 
+def run_seq(case):
+    """ONE decorated function (retry(...) applied once), called several times in a row; every call has its own scripted
+    outcome list and is judged on its own (the statement is about each call: no state may be carried between calls)"""
+    from pedantic.decorators.fn_deco_retry import retry
+    a1, a2, a3 = object(), [1, 2], {'k': object()}
+    state = {'events': None, 'produced': None, 'outs': None, 'tail': None}
+
+    def script(*args, **kwargs):
+        produced, events = state['produced'], state['events']
+        i = len(produced)
+        if i >= BUDGET:
+            raise BudgetExceeded()
+        same = (len(args) == 2 and args[0] is a1 and args[1] is a2 and list(kwargs) == ['kw'] and kwargs['kw'] is a3)
+        events.append(1 if same else 2)
+        o = state['outs'][i] if i < len(state['outs']) else state['tail']
+        if o[0] == 'ret':
+            v = object()
+            produced.append(v)
+            return v
+        ex = excs.cls_of(o[1])('boom %d' % i)
+        produced.append(ex)
+        raise ex
+    script.__name__ = 'script'
+    spec = [excs.cls_of(p) for p in case['spec']]
+    exceptions = spec[0] if case.get('single') and len(spec) == 1 else tuple(spec)
+    real_sleep = time.sleep
+    results = []
+    try:
+        time.sleep = lambda s: state['events'].append(3)
+        deco = retry(attempts=case['attempts'], exceptions=exceptions, sleep_time=timedelta(seconds=0.001))(script)
+        for call in case['calls']:
+            state.update(events=[], produced=[], outs=call['outs'], tail=call['tail'])
+            try:
+                r = deco(a1, a2, kw=a3)
+                kind, obj = 'ret', r
+            except BudgetExceeded:
+                results.append({'result': [2, 0], 'events': state['events'][:40], 'n_calls': len(state['produced'])})
+                continue
+            except BaseException as ex:
+                kind, obj = 'exc', ex
+            idx = [i for i, p in enumerate(state['produced']) if p is obj]
+            res = [0, idx[-1]] if idx else ([1, 0] if kind == 'ret' and obj is None else [3, 0])
+            results.append({'result': res, 'events': state['events'], 'n_calls': len(state['produced']),
+                            'exc': type(obj).__name__ if kind == 'exc' else None})
+    finally:
+        time.sleep = real_sleep
+    return {'calls': results}
+
+
 def corner_table():
     """callees the scripted stream cannot express: parameters named like the keywords of the retry machinery, callables
     without __name__.  (name, build) where build() -> (callable to invoke, log of invocations, expected kwargs per invocation)"""
@@ -134,7 +183,7 @@ def main():
     cases = json.load(sys.stdin)
     for c in cases:
         try:
-            r = run_corner(c) if c.get('obs') == 'corner' else run_case(c)
+            r = run_corner(c) if c.get('obs') == 'corner' else run_seq(c) if c.get('mode') == 'deco_seq' else run_case(c)
         except BaseException as ex:   # harness-level failure
             r = {'error': repr(ex)}
         print(json.dumps(r), flush=True)
